@@ -10,12 +10,15 @@ import calendar
 from harness import core, clsrun, clsops, canon, gen_tls
 from harness.core import hx
 
-LEAN_MODULES = ['CpProps.C06', 'CpProps.C06Ssl2']
-RULE = ('generated TLS objects (records, alerts, CCS, all handshake messages of the library, every extension class the '
-        'generators build incl. SNI/ALPN/key_share/status_request/token_binding, SSL 2.0 records) are composed by the '
-        'library and by an independent RFC-level encoder and the bytes compared; the reference encoding is then parsed '
-        'by the library and must give back the original field values; modelled classes additionally run through the '
-        'Lean model (R ops). Non-trivial: object with at least one non-default field; distinct: composed bytes.')
+LEAN_MODULES = ['CpProps.C06', 'CpProps.C06Ssl2', 'CpProps.C06Ext']
+RULE = ('generated TLS objects (records, alerts, CCS, all handshake messages of the library, every extension class of both '
+        'variant lists incl. SNI/ALPN/ALPS/NPN/key_share (client, server, hello-retry)/status_request/token_binding/SCT list, '
+        'SSL 2.0 records) are composed by the library and by an independent RFC-level encoder and the bytes compared; the '
+        'reference encoding is then parsed by the library and must give back the original field values; the reference '
+        'encoding of an extension is ALSO parsed through the variant of its side alone and inside an extension list of that '
+        'side followed by another extension, and class and values must equal the original (a conformant extension must not '
+        'be captured by another class of the variant walk); modelled classes additionally run through the Lean model (R '
+        'ops). Non-trivial: object with at least one non-default field; distinct: composed bytes.')
 
 
 def prefix_width(ceiling):
@@ -86,8 +89,9 @@ def enc_extension(e):
         names = b''.join(vec(255, p.value.code.encode('utf-8')) for p in e.protocol_names)   # RFC 7301 3.1
         body = vec(2 ** 16 - 1, names)
     elif name in ('TlsExtensionKeyShareClient', 'TlsExtensionKeyShareReservedClient'):   # RFC 8446 4.2.8
-        shares = b''.join(u(2, code_of(s.group)) + vec(2 ** 16 - 1, bytes(bytearray(s.key_exchange)))
-                          for s in e.key_share_entries)
+        # an entry of a group the library does not know keeps its key_exchange as opaque `data`
+        shares = b''.join(u(2, code_of(s.group)) + vec(2 ** 16 - 1, bytes(bytearray(
+            s.key_exchange if hasattr(s, 'key_exchange') else s.data))) for s in e.key_share_entries)
         body = vec(2 ** 16 - 1, shares)
     elif name == 'TlsExtensionCertificateStatusRequestClient':   # RFC 6066 8
         ids = b''.join(vec(2 ** 16 - 1, bytes(bytearray(r))) for r in e.responder_id_list)
@@ -95,9 +99,84 @@ def enc_extension(e):
     elif name == 'TlsExtensionTokenBinding':             # RFC 8472 2
         body = u(1, e.protocol_version.major) + u(1, e.protocol_version.minor) + \
             vec(255, b''.join(u(1, code_of(p)) for p in e.parameters))
+    elif name == 'TlsExtensionKeyShareServer':           # RFC 8446 4.2.8: KeyShareEntry server_share
+        s = e.key_share_entry                            # NamedGroup group; opaque key_exchange<1..2^16-1>
+        body = u(2, code_of(s.group)) + vec(2 ** 16 - 1, bytes(bytearray(s.key_exchange)))
+    elif name == 'TlsExtensionKeyShareClientHelloRetry':  # RFC 8446 4.2.8: NamedGroup selected_group
+        body = u(2, code_of(e.selected_group))
+    elif name == 'TlsExtensionNextProtocolNegotiationServer':   # draft-agl-tls-nextprotoneg-04 3: the extension_data
+        body = b''.join(vec(255, p.value.code.encode('ascii')) for p in e.protocol_names)   # is the 8-bit prefixed strings
+    elif name == 'TlsExtensionSignedCertificateTimestampServer':   # RFC 6962 3.3: SerializedSCT sct_list<1..2^16-1>
+        body = vec(2 ** 16 - 1, b''.join(vec(2 ** 16 - 1, enc_sct(s)) for s in e.scts))
     else:
         raise canon.Unmodelled(name)
     return u(2, t) + vec(2 ** 16 - 1, body)
+
+
+def enc_sct(sct):
+    """RFC 6962 3.2: Version sct_version; LogID id (opaque key_id[32]); uint64 timestamp (ms); CtExtensions extensions
+    <0..2^16-1>; digitally-signed (SignatureAndHashAlgorithm, opaque signature<0..2^16-1>)"""
+    millis = calendar.timegm(sct.timestamp.utctimetuple()) * 1000 + sct.timestamp.microsecond // 1000
+    return (u(1, int(sct.version)) + bytes(sct.log.log_id.value) + u(8, millis) +
+            vec(2 ** 16 - 1, bytes(bytearray(sct.extensions))) + u(2, code_of(sct.signature_algorithm)) +
+            vec(2 ** 16 - 1, bytes(bytearray(sct.signature))))
+
+
+def extension_sides(e):
+    """the variant / list classes an extension object belongs to: ('client'|'server', variant class, list class)"""
+    from cryptoparser.tls import extension as ex
+    out = []
+    for side, var, lst in (('client', ex.TlsExtensionVariantClient, ex.TlsExtensionsClient),
+                           ('server', ex.TlsExtensionVariantServer, ex.TlsExtensionsServer)):
+        classes = var._get_variant_types()  # pylint: disable=protected-access
+        if type(e) is ex.TlsExtensionUnparsed:
+            parsed = {c.get_extension_type().value.code for c in classes if c is not ex.TlsExtensionUnparsed}
+            if e.extension_type.value.code not in parsed:
+                out.append((side, var, lst))
+        elif type(e) in classes:
+            out.append((side, var, lst))
+    return out
+
+
+# a second extension of a type no side has a parser for, to stand behind the one under test
+FOLLOWER = u(2, 0xfafa) + vec(2 ** 16 - 1, b'\x01\x02\x03')
+
+
+def check_through_variant(obj, ref):
+    """the RFC encoding parsed by the variant of the extension's side — alone, followed by bytes, and as the first
+    item of an extension list of that side followed by another extension: class and values must be the original's"""
+    name = type(obj).__name__
+    want = canon.generic(obj)
+    bad = []
+    from cryptodatahub.tls.algorithm import TlsExtensionType
+    # the variant itself answers InvalidValue for a type code outside TlsExtensionType (GREASE, unassigned): such an
+    # extension exists only as an item of an extension list, where the fallback class keeps it
+    in_variant = name != 'TlsExtensionUnparsed' or obj.extension_type.value.code in {m.value.code for m in TlsExtensionType}
+    for side, var, lst in extension_sides(obj):
+        for label, data in ((('alone', ref), ('followed', ref + FOLLOWER)) if in_variant else ()):
+            try:
+                got, n = var.parse_immutable(data)
+                if n != len(ref) or type(got) is not type(obj) or canon.generic(got) != want:
+                    bad.append(('variant:' + name, '{} ({}, {} variant): the RFC encoding {} parses as {} consuming {} of {}; '
+                                'expected {}'.format(name, label, side, hx(data)[:120], canon.generic(got)[:200], n, len(ref),
+                                                     want[:200])))
+            except Exception as exc:  # pylint: disable=broad-except
+                bad.append(('variant:' + name, '{} ({}, {} variant): the RFC encoding {} is rejected: {}'.format(
+                    name, label, side, hx(data)[:120], core.err_line(exc))))
+        if len(ref) + len(FOLLOWER) > 2 ** 16 - 1:
+            continue
+        block = vec(2 ** 16 - 1, ref + FOLLOWER)
+        try:
+            items = lst.parse_exact_size(block)
+            first = items[0] if len(items) else None
+            if len(items) != 2 or type(first) is not type(obj) or canon.generic(first) != want:
+                bad.append(('list:' + name, '{} ({} list): followed by another extension the RFC encoding {} parses as {} '
+                            '({} items); expected {}'.format(name, side, hx(block)[:120], canon.generic(first)[:200],
+                                                             len(items), want[:200])))
+        except Exception as exc:  # pylint: disable=broad-except
+            bad.append(('list:' + name, '{} ({} list): followed by another extension the RFC encoding {} is rejected: {}'.format(
+                name, side, hx(block)[:120], core.err_line(exc))))
+    return bad
 
 
 def enc_extensions(exts):
@@ -153,6 +232,8 @@ def reference(obj):
             body += vec(2 ** 16 - 2, b''.join(u(2, code_of(a)) for a in obj.supported_signature_algorithms))
         body += vec(2 ** 16 - 1, b''.join(vec(2 ** 16 - 1, bytes(bytearray(dn))) for dn in obj.certificate_authorities))
         return enc_handshake(13, body)
+    if name in ('TlsExtensionsClient', 'TlsExtensionsServer'):   # Extension extensions<0..2^16-1> as a value of its own
+        return vec(2 ** 16 - 1, b''.join(enc_extension(e) for e in obj))
     if name.startswith('TlsExtension'):
         return enc_extension(obj)
     if name == 'SslRecord':                          # SSL 2.0: 2-byte header with the MSB set, no padding
@@ -172,16 +253,6 @@ def reference(obj):
             raise canon.Unmodelled(mname)
         return u(2, 0x8000 | len(body)) + body
     raise canon.Unmodelled(name)
-
-
-def certificate_request(rng):
-    from cryptoparser.tls.subprotocol import (TlsHandshakeCertificateRequest, TlsClientCertificateType,
-                                              TlsDistinguishedName)
-    from cryptodatahub.tls.algorithm import TlsSignatureAndHashAlgorithm
-    types = rng.sample(list(TlsClientCertificateType), rng.randrange(1, 4))
-    cas = [TlsDistinguishedName(list(gen_tls.rbytes(rng, rng.randrange(1, 30)))) for _ in range(rng.randrange(0, 3))]
-    algs = None if rng.random() < 0.4 else rng.sample(list(TlsSignatureAndHashAlgorithm), rng.randrange(1, 5))
-    return TlsHandshakeCertificateRequest(types, cas, algs)
 
 
 def ssl_record(rng):
@@ -204,8 +275,9 @@ GENERATORS = [
     gen_tls.version, gen_tls.record, gen_tls.alert, gen_tls.ccs,
     lambda r: gen_tls.client_hello(r, modelled_only=False), lambda r: gen_tls.client_hello(r, modelled_only=False),
     gen_tls.server_hello, lambda r: gen_tls.server_hello(r, True), gen_tls.certificate, gen_tls.server_key_exchange,
-    gen_tls.certificate_status, gen_tls.server_hello_done, certificate_request, ssl_record,
+    gen_tls.certificate_status, gen_tls.server_hello_done, gen_tls.certificate_request, ssl_record,
     lambda r: gen_tls.client_extension(r, modelled_only=False), gen_tls.server_extension,
+    gen_tls.extensions_client, gen_tls.extensions_server,
 ]
 
 
@@ -232,12 +304,47 @@ def check(obj):
                 name, canon.generic(back)[:250], canon.generic(obj)[:250])))
     except Exception as exc:  # pylint: disable=broad-except
         bad.append(('decode:' + name, '{}: the RFC encoding {} is rejected: {}'.format(name, hx(ref)[:200], core.err_line(exc))))
+    if name.startswith('TlsExtension') and not name.startswith('TlsExtensions'):
+        bad.extend(check_through_variant(obj, ref))
     return ref, bad
 
 
-def boundary_cases(run):
+def ceiling_extensions(rng):
+    """extension objects at the ceilings their length fields allow: an ALPN list of 2^16-3 bytes (what the extension's
+    own 16-bit length leaves), an NPN list of 2^16-1 bytes, a host name of 2^16-6 bytes, a key share list and an SCT
+    list close to 2^16-3"""
+    from cryptoparser.tls import extension as ex
+    from cryptoparser.common.x509 import SignedCertificateTimestampList
+    from cryptodatahub.tls.algorithm import TlsProtocolName, TlsNextProtocolName, TlsNamedCurve
+    out = [
+        ex.TlsExtensionApplicationLayerProtocolNegotiation(gen_tls.protocol_names(rng, TlsProtocolName, 65533)),
+        ex.TlsExtensionNextProtocolNegotiationServer(gen_tls.protocol_names(rng, TlsNextProtocolName, 65535)),
+        ex.TlsExtensionServerNameClient(('.'.join('a' * 63 for _ in range(1024)))[:65530].rstrip('.')),
+    ]
+    curves = list(TlsNamedCurve)
+    entries = [ex.TlsKeyShareEntry(rng.choice(curves), list(gen_tls.rbytes(rng, 1020))) for _ in range(63)]   # 63 * 1024
+    out.append(ex.TlsExtensionKeyShareClient(entries + [ex.TlsKeyShareEntry(curves[0], list(gen_tls.rbytes(rng, 1017)))]))
+    scts = []
+    while sum(2 + 47 + len(s.extensions) + len(s.signature) for s in scts) < 65000:
+        scts.append(gen_tls.sct(rng))
+    out.append(ex.TlsExtensionSignedCertificateTimestampServer(SignedCertificateTimestampList(scts)))
+    return out
+
+
+def boundary_cases(run, cases=None):
     """conformant encodings at the RFC floors/ceilings that generators rarely hit"""
     from cryptoparser.tls.subprotocol import TlsHandshakeCertificate
+    for obj in ceiling_extensions(run.rng):
+        name = type(obj).__name__
+        run.evaluations += 1
+        run.count('classes', name)
+        ref, bad = check(obj)
+        case = {'kind': 'ref', 'cls': name, 'data': hx(ref)}
+        for key, msg in bad:
+            run.finding(key, msg, case)
+        if cases is not None:
+            for side, var, lst in extension_sides(obj):
+                cases.append({'kind': 'cls', 'cls': var.__name__, 'data': hx(ref), 'want': [], 'framing': False})
     data = enc_handshake(11, vec(2 ** 24 - 1, b''))       # empty certificate_list is conformant (RFC 5246 7.4.6)
     run.evaluations += 1
     try:
@@ -274,14 +381,20 @@ def run(run, driver_ok=True, deep=False):
             for key, msg in bad:
                 run.finding(key, msg, case)
             mname = name if name in modelled else None
-            if name.startswith('TlsExtension') and name not in modelled:
-                mname = None
             if mname:
                 cases.append({'kind': 'cls', 'cls': mname, 'data': hx(ref), 'want': [], 'framing': False})
+            if name.startswith('TlsExtension') and not name.startswith('TlsExtensions'):
+                # extension classes sit in the model behind the variant / list classes of their side
+                for side, var, lst in extension_sides(obj):
+                    cases.append({'kind': 'cls', 'cls': var.__name__, 'data': hx(ref), 'want': [], 'framing': False})
+                    cases.append({'kind': 'cls', 'cls': var.__name__, 'data': hx(ref + FOLLOWER), 'want': [], 'framing': False})
+                    if len(ref) + len(FOLLOWER) <= 2 ** 16 - 1:
+                        cases.append({'kind': 'cls', 'cls': lst.__name__, 'data': hx(vec(2 ** 16 - 1, ref + FOLLOWER)),
+                                      'want': [], 'framing': False})
     if cases:
         run.sample(cases[0])
         run.sample(cases[-1])
-    boundary_cases(run)
+    boundary_cases(run, cases)
     clsrun.run_cases(run, cases, driver_ok)
 
 
